@@ -46,14 +46,16 @@ def load_seeded(prop):
         with open(mp, encoding="utf-8") as fh:
             meta = json.load(fh)
         caught = meta.get("caught_by", {})
+        if meta.get("reconfirmed", {}).get("applies") is False:
+            continue  # overtaken by a later fix: commit in /repo (kept for the record)
         if meta.get("kind") == "refactor":
             # a behaviour-preserving refactoring of this property's code: the check must stay silent
             if meta.get("property") == prop and not meta.get("undecided_by", {}).get(prop):
                 out.append({"id": "seed-" + d, "patch": os.path.join(root, d, "patch.diff"), "expect": "silent",
                             "why": meta.get("summary", ""), "file": None})
             continue
-        if prop not in caught:
-            continue
+        if prop not in caught or meta.get("property") != prop:
+            continue  # replayed under the seed's own property only (catches by sibling checks are incidental)
         out.append({"id": "seed-" + d, "patch": os.path.join(root, d, "patch.diff"), "expect": "fire",
                     "rule": caught[prop][0] if caught[prop] else None, "why": meta.get("summary", ""), "file": None})
     return out
